@@ -43,6 +43,7 @@ type Prog struct {
 	Assumes    map[string]map[string]*Block // using package path -> "pkgname.Recv.Name" -> assumed contract
 	Ifaces     map[string]*Block            // "pkgpath.Type.Method" or "pkgpath.FuncType." -> contract
 	Axioms     map[string]bool
+	AbstractTypes map[string]map[string]bool // using package path -> "pkgname.Type"
 	GInit     map[*types.Var]*GlobalInit
 	InitFuncs map[string][]*FuncInfo // pkg path -> init functions in file order
 	Written   map[*types.Var][]token.Position
@@ -75,7 +76,7 @@ func recvTypeName(t types.Type) string {
 
 func LoadProg(root string) (*Prog, error) {
 	p := &Prog{Root: root, Pkgs: map[string]*packages.Package{}, Funcs: map[*types.Func]*FuncInfo{},
-		FuncByKey: map[string]*FuncInfo{}, Blocks: map[string]*Block{}, Lemmas: map[string]*Block{}, OpaqueSpec: map[string]bool{}, HeapClasses: map[string]bool{}, Assumes: map[string]map[string]*Block{}, Ifaces: map[string]*Block{}, Axioms: map[string]bool{},
+		FuncByKey: map[string]*FuncInfo{}, Blocks: map[string]*Block{}, Lemmas: map[string]*Block{}, OpaqueSpec: map[string]bool{}, HeapClasses: map[string]bool{}, Assumes: map[string]map[string]*Block{}, Ifaces: map[string]*Block{}, Axioms: map[string]bool{}, AbstractTypes: map[string]map[string]bool{},
 		GInit: map[*types.Var]*GlobalInit{}, InitFuncs: map[string][]*FuncInfo{}, Written: map[*types.Var][]token.Position{},
 		LoopOrd: map[ast.Stmt]int{}, LoopFunc: map[ast.Stmt]*FuncInfo{}, strIntern: map[string]int64{}, Overlays: map[string]string{}}
 	p.Extra = &types.Info{Types: map[ast.Expr]types.TypeAndValue{}, Defs: map[*ast.Ident]types.Object{}, Uses: map[*ast.Ident]types.Object{},
@@ -114,6 +115,14 @@ func LoadProg(root string) (*Prog, error) {
 			t := strings.TrimSpace(l)
 			if strings.HasPrefix(t, "//@ import ") {
 				imports = append(imports, strings.TrimSpace(strings.TrimPrefix(t, "//@ import ")))
+			}
+			if strings.HasPrefix(t, "//@ abstract type ") {
+				if p.AbstractTypes[pkgPath] == nil {
+					p.AbstractTypes[pkgPath] = map[string]bool{}
+				}
+				for _, n := range strings.FieldsFunc(strings.TrimPrefix(t, "//@ abstract type "), func(r rune) bool { return r == ',' || r == ' ' }) {
+					p.AbstractTypes[pkgPath][n] = true
+				}
 			}
 			if strings.HasPrefix(t, "//@ heap ") {
 				p.HeapClasses[pkgPath+"."+strings.TrimSpace(strings.TrimPrefix(t, "//@ heap "))] = true
